@@ -42,6 +42,7 @@ import (
 	"github.com/AliceO2Group/Control/common/system"
 	"github.com/AliceO2Group/Control/common/utils"
 	"github.com/AliceO2Group/Control/common/utils/uid"
+	"github.com/AliceO2Group/Control/common/verifhook"
 	event2 "github.com/AliceO2Group/Control/core/integration/odc/event"
 	"github.com/AliceO2Group/Control/core/task"
 	"github.com/AliceO2Group/Control/core/task/sm"
@@ -592,6 +593,10 @@ func (envs *Manager) TeardownEnvironment(environmentId uid.ID, force bool) error
 			Infof("environment teardown attempt resumed")
 	}
 	defer env.transitionMutex.Unlock()
+	verifhook.Point("env.lock.acquired", "env", environmentId.String(), "what", "DESTROY", "st", env.Sm.Current())
+	defer func() {
+		verifhook.Point("env.lock.release", "env", environmentId.String(), "what", "DESTROY", "st", env.Sm.Current())
+	}()
 
 	if env.CurrentState() == "DONE" {
 		return errors.New("attempting to teardown an environment which is already in DONE, doing nothing")
@@ -671,6 +676,7 @@ func (envs *Manager) TeardownEnvironment(environmentId uid.ID, force bool) error
 		}
 	}
 
+	verifhook.Point("env.teardown.phase", "env", environmentId.String(), "phase", "left")
 	tasksToRelease := env.Workflow().GetTasks()
 
 	// we gather all DESTROY/after_DESTROY hooks, as these require special treatment
@@ -752,6 +758,7 @@ func (envs *Manager) TeardownEnvironment(environmentId uid.ID, force bool) error
 	envs.taskman.MessageChannel <- taskmanMessage
 
 	incomingEv := <-pendingCh
+	verifhook.Point("env.teardown.phase", "env", environmentId.String(), "phase", "released1")
 
 	// If some tasks failed to release
 	if taskReleaseErrors := incomingEv.GetTaskReleaseErrors(); len(taskReleaseErrors) > 0 {
@@ -818,7 +825,9 @@ func (envs *Manager) TeardownEnvironment(environmentId uid.ID, force bool) error
 		}
 	}
 
+	verifhook.Point("env.teardown.phase", "env", environmentId.String(), "phase", "destroyhooks")
 	envs.cancelCallsPendingAwait(env)
+	verifhook.Point("env.teardown.phase", "env", environmentId.String(), "phase", "cancelled")
 
 	// we remake the pending teardown channel too, because each completed TasksReleasedEvent
 	// automatically closes it
@@ -836,6 +845,7 @@ func (envs *Manager) TeardownEnvironment(environmentId uid.ID, force bool) error
 	envs.taskman.MessageChannel <- taskmanMessage
 
 	incomingEv = <-pendingCh
+	verifhook.Point("env.teardown.phase", "env", environmentId.String(), "phase", "released2")
 
 	// If some cleanup hooks failed to release
 	if taskReleaseErrors := incomingEv.GetTaskReleaseErrors(); len(taskReleaseErrors) > 0 {
@@ -865,6 +875,7 @@ func (envs *Manager) TeardownEnvironment(environmentId uid.ID, force bool) error
 	}
 
 	env.setState("DONE")
+	verifhook.Point("env.teardown.phase", "env", environmentId.String(), "phase", "done")
 	env.sendEnvironmentEvent(&event.EnvironmentEvent{EnvironmentID: env.Id().String(), Message: "teardown complete", State: "DONE"})
 
 	log.WithField("method", "TeardownEnvironment").
